@@ -10,6 +10,7 @@ identical results.
 import inspect
 
 from engine.hdef import H, known_findings
+from math import gcd
 from engine.sym import check, must_not_raise, require
 
 
@@ -114,7 +115,8 @@ def same(a, b):
     return a == b or (a != a and b != b)
 
 
-ENTRY = ["note_array", "note_array_full", "rest_array", "maps", "pretty", "save_score_midi", "transpose", "unfold", "pianoroll"]
+ENTRY = ["note_array", "note_array_full", "rest_array", "maps", "pretty", "save_score_midi", "transpose", "transpose_list",
+         "transpose_group", "unfold", "pianoroll", "slice"]
 
 
 def make_part_entry(entry):
@@ -127,7 +129,7 @@ def make_part_entry(entry):
         require(1 <= d_a)
         require(on_a + d_a + 1 <= 2 * bar)
         require(0 <= on_b <= 2 * bar - 2)
-        if entry in ("pretty", "unfold", "transpose"):
+        if entry in ("pretty", "unfold", "transpose", "transpose_list", "transpose_group", "slice"):
             require(on_b == 0)  # heavy entry points: one position pinned
         part = S.Part("P", quarter_duration=q)
         part.add(S.TimeSignature(4, 4), 0)
@@ -176,6 +178,23 @@ def make_part_entry(entry):
             if entry == "transpose":
                 res = M.transpose(part, S.Interval(3, "m"))
                 return [(n.id, n.step, n.alter, n.octave, n.start.t) for n in res.notes]
+            if entry in ("transpose_list", "transpose_group"):
+                if entry == "transpose_group":
+                    arg = S.PartGroup(group_name="g")
+                    arg.children = [part]
+                else:
+                    arg = [part]
+                res = M.transpose(arg, S.Interval(2, "M"))
+                rp = list(S.iter_parts(res))[0]
+                check(rp is not part, "transpose returned the argument's part")
+                # (whether a list / group is transposed at all is not stated by C16/C20: only purity and repeatability here)
+                return [(n.id, n.step, n.alter, n.octave, n.start.t) for n in rp.notes]
+            if entry == "slice":
+                na = part.note_array()
+                before_na = na.copy()
+                sl = M.slice_notearray_by_time(na, 1, bar, time_unit="div")
+                check(same(na, before_na), "slice_notearray_by_time modified the array it was given")
+                return sl
             if entry == "unfold":
                 res = S.unfold_part_maximal(part)
                 return [(n.id, n.start.t, n.end.t) for n in res.notes]
@@ -192,6 +211,44 @@ def make_part_entry(entry):
         check(same(r1, r2), "%s gives a different result when called again" % entry)
         check(fp_part(part) == before, "%s modified its argument on the second call" % entry)
         return len(before)
+
+    return h
+
+
+def make_xml_entry():
+    """save_musicxml goes through lxml: concrete vectors on the real library only."""
+
+    def h(t_ped: int, closed: bool):
+        import partitura
+        import partitura.score as S
+        from engine import sym
+
+        require(0 <= t_ped <= 28)
+        if sym._ACTIVE["symbolic"]:
+            return 0
+        part = S.Part("P1", "Piano", quarter_duration=4)
+        part.add(S.TimeSignature(4, 4), 0)
+        part.add(S.KeySignature(0, "major"), 0)
+        part.add(S.Clef(staff=1, sign="G", line=2, octave_change=0), 0)
+        for i, st in enumerate("CDEFGABC"):
+            part.add(S.Note(step=st, octave=4, id="n%d" % i, voice=1, staff=1, symbolic_duration={"type": "quarter"}), 4 * i, 4 * i + 4)
+        part.add(S.SustainPedalDirection(staff=1, line=True), 0, 8)
+        if closed:
+            part.add(S.SustainPedalDirection(staff=1, line=False), t_ped, 32)
+        else:
+            part.add(S.SustainPedalDirection(staff=1, line=False), t_ped)  # pressed, never released in the score
+        part.add(S.Words("dolce", staff=1), t_ped)
+        S.add_measures(part)
+        scr = S.Score([part], id="demo")
+        before = fp_part(part)
+        dirs = lambda: [(type(d).__name__, d.start.t, None if d.end is None else d.end.t) for d in part.iter_all(S.Direction, include_subclasses=True)]
+        d0 = dirs()
+        x1 = must_not_raise(partitura.save_musicxml, scr, _what="save_musicxml")
+        check(fp_part(part) == before and dirs() == d0, "save_musicxml modified the score", d0, dirs())
+        x2 = must_not_raise(partitura.save_musicxml, scr, _what="save_musicxml (again)")
+        check(x1 == x2, "save_musicxml is not repeatable")
+        check(fp_part(part) == before and dirs() == d0, "save_musicxml modified the score on the second call")
+        return len(x1)
 
     return h
 
@@ -227,7 +284,7 @@ def _cont(tier):
 
 
 def _entries(tier):
-    q = ["note_array", "maps", "pretty", "save_score_midi", "transpose", "unfold"]
+    q = ["note_array", "maps", "pretty", "save_score_midi", "transpose", "transpose_list", "transpose_group", "unfold", "slice"]
     return [{"entry": e} for e in (q if tier == "quick" else ENTRY)]
 
 
@@ -245,6 +302,10 @@ HARNESSES = [
       bounds="one two-measure part (tie chain, grace note, second voice, rest, signatures, clef) with three symbolic "
              "positions; each entry point called twice; fingerprint of all points, links, objects and attributes",
       outside="save_musicxml / save_match (lxml, files), estimate_spelling/voices/key (numeric kernels), note arrays of scores"),
+    H("xml_entry", make_xml_entry, lambda tier: [{}], budget={"quick": 20, "thorough": 20}, core=False,
+      vectors=[{"t_ped": 20, "closed": False}, {"t_ped": 0, "closed": True}, {"t_ped": 7, "closed": False}],
+      functions=["exportmusicxml.save_musicxml (real lxml, concrete vectors only)"],
+      bounds="save_musicxml needs lxml: concrete vectors only (open-ended and closed pedal marks, words)"),
     H("perf_entry", make_perf_entry, lambda tier: [{}],
       models=["symnp:partitura.performance,partitura.io.exportmidi", "symdict_exportmidi"], budget={"quick": 150, "thorough": 600},
       functions=["exportmidi.save_performance_midi"],
